@@ -2,7 +2,7 @@
    Proofs/HwDbSrc.v (facts about the regenerated tables Gen/Src_devdb.v). *)
 From Coq Require Import List String Bool Arith Permutation.
 From Annet Require Import Base.Str Model.HwDb Spec.P_C18 Gen.Src_devdb
-                          Proofs.HwDbProofs Proofs.HwDbTables Proofs.HwDbSrc.
+                          Proofs.HwDbProofs Proofs.HwDbTables Proofs.HwDbSrc Proofs.HwDbChain.
 Import ListNotations.
 Open Scope string_scope.
 
@@ -127,3 +127,47 @@ Example C18_example_shared_regex_rejected :
   true_sequences _ hit_tbl [(["A"], 0); (["A"; "B"], 1); (["A"; "C"], 1); (["A"; "C"; "D"], 2)] [0; 1; 2]
     = Some [["A"]; ["A"; "B"]; ["B"]; ["A"; "D"]; ["A"; "C"; "D"]; ["C"; "D"]; ["D"]].
 Proof. split; vm_compute; reflexivity. Qed.
+
+(* ---- exactness of the reported families (clause chain_ok of P_C18_full) --------------------- *)
+
+(* For every database that loads and satisfies db_ok, every regex semantics and every model
+   string: the set find_true_sequences reports satisfies chain_ok - a database entry is in it
+   exactly when its whole chain of regexes is found (in particular two sibling families whose
+   regexes both match are both true: "CE6865E" is CE6865 and CE6865E). *)
+Theorem C18_chain_exact :
+  forall (d : db) (t : list node), build_tree d = Some t -> db_ok d = true ->
+  forall (M : Type) (hit : rid -> M -> bool) (m : M),
+    chain_ok M hit d m (keys d) (tree_true M hit m t) = true.
+Proof. exact chain_ok_model. Qed.
+Print Assumptions C18_chain_exact.
+
+(* ... and the clause leaves no freedom on the database entries: any reported set satisfying
+   chain_ok has exactly the model's true entries *)
+Theorem C18_chain_unique :
+  forall (d : db) (t : list node), build_tree d = Some t -> db_ok d = true ->
+  forall (M : Type) (hit : rid -> M -> bool) (m : M) (tr : list seq),
+    chain_ok M hit d m (keys d) tr = true ->
+    forall s, In s (keys d) -> (In s tr <-> In s (tree_true M hit m t)).
+Proof. exact chain_ok_unique. Qed.
+Print Assumptions C18_chain_unique.
+
+(* the boolean the case files evaluate (part_chain, on the regenerated tables) is true of every
+   observation that reports what the model computes from the observed hits *)
+Theorem C18_chain_holds_src :
+  forall (m : list nat) (y : obs), o_true y = src_true m -> part_chain (m, y) = true.
+Proof. exact src_chain_holds. Qed.
+Print Assumptions C18_chain_holds_src.
+
+(* the clause is not vacuous: on ex_db the model "Cisco ASR Nexus"-like hit set 0,1,2 makes both
+   sibling families Cisco.ASR and Cisco.Nexus true; a report that stops at the first matching
+   sibling (Cisco.ASR only) violates chain_ok although it is prefix-closed (hier_ok) *)
+Example C18_example_sibling_skipped :
+  chain_ok _ hit_tbl ex_db [0; 1; 2] (keys ex_db) [["Cisco"]; ["Cisco"; "ASR"]; ["ASR"]] = false /\
+  hier_ok (keys ex_db) [["Cisco"]; ["Cisco"; "ASR"]; ["ASR"]] = true /\
+  (exists tr, true_sequences _ hit_tbl ex_db [0; 1; 2] = Some tr /\
+              chain_ok _ hit_tbl ex_db [0; 1; 2] (keys ex_db) tr = true /\
+              mem ["Cisco"; "Nexus"] tr = true /\ mem ["Cisco"; "ASR"] tr = true).
+Proof.
+  split; [vm_compute; reflexivity |]. split; [vm_compute; reflexivity |].
+  eexists. split; [vm_compute; reflexivity |]. repeat split; vm_compute; reflexivity.
+Qed.
